@@ -74,6 +74,8 @@ func genDynHistory(t *rapid.T, p Profile, kinds []string, maxBatches int) HistCa
 	g.genWorld()
 	g.genRichExtras()
 	params := ctlsim.Params{Shards: rapid.SampledFrom([]int{0, 0, 2, 3}).Draw(t, "shards"), SortBy: rapid.SampledFrom([]string{"", "", "name", "ip"}).Draw(t, "sortby")}
+	// --enable-endpointslices-api: an Endpoints change arrives as creates / updates / deletes of EndpointSlice objects
+	params.EPSlices = chanceT(t, "epslices", 20)
 	c := HistCase{Params: params}
 	for _, o := range g.W.List() {
 		c.Init = append(c.Init, o.Clone())
